@@ -570,6 +570,113 @@ def world_immovable(U, rep, tier):
                'not have zero inverse mass / inertia): push-out too weak or too strong, resting bodies sink')
 
 
+def _rational(v, p):
+  """Rational reconstruction (Wang): the unique n/d with |n|, d < sqrt(p/2) and n = v d (mod p), or None."""
+  import math
+  bound = math.isqrt(p // 2)
+  r0, r1, t0, t1 = p, v % p, 0, 1
+  while r1 > bound:
+    q = r0 // r1
+    r0, r1, t0, t1 = r1, r0 - q * r1, t1, t0 - q * t1
+  if t1 == 0 or abs(t1) > bound:
+    return None
+  from fractions import Fraction
+  return Fraction(r1, t1)
+
+
+def spring_restitution(U, rep, tier):
+  """R6.5: the rebound law AT THE CONTACT POINT, on the bodies the state describes.  spring.collisions.resolve is
+  executed (random interpretation) for one penetrating, approaching CENTRAL contact (centres of mass on the contact
+  normal, as for spheres -- the case the property states) without lateral drag; with the returned
+  delta-velocities applied to the links' centre-of-mass motion (x_i, xd_i, i_inv, mass of the SAME state) the normal
+  velocity of the contact point satisfies  vn' - vn = c * (-(1 + e) vn - erp/dt * dist)  with ONE state-independent
+  constant c within 1e-3 of 1 (the averaging guard 1/(1 + 1e-8))."""
+  f = U.func(SC + '.resolve')
+  from braxlint.scenario import const_of_key
+
+  def scenario_of(neg):
+    """dist < 0 and normal velocity < 0 (penetrating, approaching); every other `0 < x` gate open (impulse > 0);
+    lateral speed below the drag threshold."""
+    def decide(nm):
+      if not isinstance(nm, avn.Atom):
+        return None
+      if nm.kind in ('allclose', 'all', 'any'):
+        return 0
+      if nm.kind != 'bool':
+        return None
+      ca, cb = const_of_key(nm[2]), const_of_key(nm[3])
+      if nm[1] == '==':
+        return 0
+      if nm[1] == '<':
+        if nm[2] in neg and cb == 0:
+          return 1
+        if ca == 0 and nm[3] in neg:
+          return 0
+        if cb == 0 and ca is None:
+          return 0       # some other x < 0
+        if ca == 0 and cb is None:
+          return 1       # 0 < impulse
+        if ca is not None and ca > 0 and cb is None:
+          return 0       # |lateral velocity| below the drag threshold
+      return None
+    return decide
+
+  for name, lidx in (('link against the world', ([-1], [0])), ('world listed second', ([1], [-1])), ('two links', ([0], [1]))):
+    consts = set()
+    bad = None
+    for sd in seeds(tier)[:3]:
+      with fieldrun(sd):
+        I = new_interp(U.repo)
+        c = symsys.contact(lidx)
+        sysd, st = symsys.system('11', (-1, 0)), symsys.state_maxcoord(2)
+        # the contact normal is a unit vector (by construction: stereographic parametrisation)
+        sa, sb = Rat.lift(sym('na')), Rat.lift(sym('nb'))
+        den = sa * sa + sb * sb + 1
+        fr = asarr(c.f['frame']).copy()
+        fr[0][0] = asarr([2 * sa / den, 2 * sb / den, (sa * sa + sb * sb - 1) / den])
+        c.f['frame'] = fr
+        # CENTRAL contact (a sphere's): each link's centre of mass lies on the line through the contact point along the
+        # normal -- the link FRAME origin (state.x) stays an independent symbol (geom offset in the body)
+        xi = asarr(st.f['x_i'].f['pos']).copy()
+        for k_ in (0, 1):
+          xi[k_] = asarr(c.f['pos'])[0] + Rat.lift(sym('rad%d' % k_)) * asarr(fr[0][0])
+        st.f['x_i'] = Struct('Transform', dict(st.f['x_i'].f, pos=xi), home='brax.base')
+        I.contracts[('brax.contact', 'get')] = lambda s, x: c
+        n = -asarr(c.f['frame'])[0][0]
+        pos = asarr(c.f['pos'])[0]
+
+        def point_vel(k, vel, ang):
+          if k < 0:
+            return P_zeros((3,))
+          r = pos - asarr(st.f['x_i'].f['pos'])[k]
+          return asarr(vel)[k] + np.cross(asarr(ang)[k], r)
+        a, b = int(lidx[0][0]), int(lidx[1][0])
+        vn = np.dot(n, point_vel(a, st.f['xd_i'].f['vel'], st.f['xd_i'].f['ang']) - point_vel(b, st.f['xd_i'].f['vel'], st.f['xd_i'].f['ang']))
+        set_scenario(scenario_of({Rat.lift(vn).key(), Rat.lift(asarr(c.f['dist'])[0]).key()}))
+        dv = I.apply(fn(SC, 'resolve'), [sysd, st], {})
+        dvn = np.dot(n, point_vel(a, dv.f['vel'], dv.f['ang']) - point_vel(b, dv.f['vel'], dv.f['ang']))
+        rhs = -(1 + Rat.lift(asarr(c.f['elasticity'])[0])) * vn - sysd.f['baumgarte_erp'] / sysd.f['opt'].f['timestep'] * asarr(c.f['dist'])[0]
+        ratio = Rat.lift(dvn) / Rat.lift(rhs)
+        fv = ratio.fv
+        if isinstance(fv, avn.Dual):
+          fv = fv.a
+        q = _rational(fv, avn.FIELD['p'])
+        consts.add(q)
+    if len(consts) != 1 or None in consts:
+      bad = 'the change of the normal velocity at the contact point is not a fixed multiple of -(1 + e) vn - erp/dt dist ' \
+            '(the impulse is computed or applied about a point other than the centre of mass the state carries?)'
+    else:
+      cst = next(iter(consts))
+      if abs(cst - 1) > Rat_tol:
+        bad = 'the normal velocity at the contact point changes by %s x the rebound law' % float(cst)
+    rep.check(bad is None, 'R6.5', 'spring: rebound law at the contact point [%s]' % name, bad or '', where=f.where(),
+              construct="n.(v_c' - v_c) = c (-(1 + e) n.v_c - erp/dt dist), c constant, |c - 1| <= 1e-3; one central contact (sphere), link frame != centre of mass, no drag")
+
+
+from fractions import Fraction as _Fr
+Rat_tol = _Fr(1, 1000)
+
+
 def run(U, rep, tier):
   world_immovable(U, rep, tier)
   contacts(U, rep, tier)
@@ -577,3 +684,4 @@ def run(U, rep, tier):
   positional_limits(U, rep, tier)
   generalized_limits(U, rep)
   push_only(U, rep)
+  spring_restitution(U, rep, tier)
